@@ -743,6 +743,61 @@ def run_effect_impl(env, h, cname, fname, left, arg):
 
 
 # ------------------------------------------------------------------------------------------------------ run
+# ------------------------------------------------------------------ locale-aware (babel) filters: history vs fresh process
+BABEL_SCRIPT = r"""
+import json, sys
+from liquid import Environment
+from liquid.extra.filters.babel import Currency, Number, Unit, DateTime
+CLS = {"currency": Currency, "decimal": Number, "unit": Unit, "datetime": DateTime}
+out = []
+for job in json.load(sys.stdin):
+    env = Environment()
+    for name, kw in job["filters"].items():
+        env.add_filter(name, CLS[name](**kw))
+    try:
+        out.append(["out", env.from_string(job["src"]).render(**job["data"])])
+    except Exception as e:
+        out.append(["err", type(e).__name__])
+print(json.dumps(out))
+"""
+
+
+def babel_family(ck: Check) -> None:
+    """The locale-aware filters of liquid.extra: a probe render after some history in a process must equal the same probe in a
+    fresh process -- in particular when two filter instances with different fallback locales meet the same unknown or known
+    locale identifier (oracle only; these filters are outside the Coq model)."""
+    import json
+    import subprocess
+    import sys
+
+    from ..core import REPO
+
+    def run(jobs):
+        r = subprocess.run([sys.executable, "-c", BABEL_SCRIPT], input=json.dumps(jobs), capture_output=True, text=True, timeout=120,
+                           env={"PYTHONPATH": REPO, "PYTHONHASHSEED": "0", "PATH": "/usr/bin:/bin"})
+        return json.loads(r.stdout) if r.returncode == 0 else [["err", "helper:" + r.stderr[-200:]]]
+
+    tmpl = {"currency": "{{ 1234.5 | currency }}", "decimal": "{{ 1234.5 | decimal }}", "unit": "{{ 12 | unit: 'length-meter' }}",
+            "datetime": "{{ '2001-02-03 04:05' | datetime }}"}
+    seqs = []
+    for name, src in tmpl.items():
+        for loc in ("xx_XX", "de_DE", "nosuch", "fr"):
+            a = {"filters": {name: {}}, "src": src, "data": {"locale": loc, "input_locale": loc}}
+            b = {"filters": {name: {"default_locale": "de_DE"}}, "src": src, "data": {"locale": loc, "input_locale": loc}}
+            c = {"filters": {name: {"default_locale": "ja_JP"}}, "src": src, "data": {"locale": loc}}
+            seqs += [[a, b], [b, a], [a, c, b]]
+    for seq in seqs:
+        got = run(seq)
+        alone = run([seq[-1]])
+        ck.note_case(("babel", json.dumps(seq, sort_keys=True)))
+        ck.count("babel.sequences")
+        if got and alone and got[-1] != alone[-1]:
+            ck.violation("impl-violation", "history:babel:" + next(iter(seq[-1]["filters"])) + ":" + seq[-1]["data"]["locale"],
+                         f"after {len(seq) - 1} earlier render(s) in the same process {seq[-1]} gives {got[-1]} but {alone[-1]} in a process that "
+                         f"has rendered nothing (history {seq[:-1]})",
+                         {"type": "babel-history", "sequence": seq, "after_history": got[-1], "fresh": alone[-1]})
+
+
 def run(ck: Check) -> None:
     ck.rule = (
         "history: targeted sequences (every ordered pair of equal-but-distinct date arguments: int/bool/float/Decimal, str/Markup, "
@@ -772,6 +827,7 @@ def run(ck: Check) -> None:
     t0 = _t.time()
     pool = Pool(4)  # the helpers import the engine while the proof step runs
     ck.proof()
+    babel_family(ck)
     ck.extra["t_proof"] = round(_t.time() - t0, 1)
     try:
         _history(ck, pool)
@@ -1083,6 +1139,33 @@ def _effects(ck: Check) -> None:
 
 
 def replay(data) -> int:
+    if data["case"].get("type") == "babel-history":
+        class _Ck:
+            def __init__(self):
+                self.v = []
+
+            def note_case(self, *a, **k):
+                pass
+
+            def count(self, *a, **k):
+                pass
+
+            def violation(self, kind, sig, what, d, no_input=False):
+                self.v.append(what)
+        import json
+        import subprocess
+        import sys
+        from ..core import REPO
+        seq = data["case"]["sequence"]
+        def run_(jobs):
+            r = subprocess.run([sys.executable, "-c", BABEL_SCRIPT], input=json.dumps(jobs), capture_output=True, text=True, timeout=120,
+                               env={"PYTHONPATH": REPO, "PYTHONHASHSEED": "0", "PATH": "/usr/bin:/bin"})
+            return json.loads(r.stdout)
+        got, alone = run_(seq), run_([seq[-1]])
+        print("after history:", got[-1], "fresh:", alone[-1])
+        bad = got[-1] != alone[-1]
+        print(("VIOLATION reproduced" if bad else "not reproduced") + f" property={data['property']}")
+        return 1 if bad else 0
     case = data["case"]
     typ = case.get("type")
     if typ == "history" and "jobs" in case and data.get("kind") == "impl-violation":
